@@ -72,17 +72,26 @@ func (m *DigestMon) AfterBlock(s *Sim, b *BlockRes) {
 func TestC01(t *testing.T) {
 	run := ev.Start("C01")
 	nHist, nOps, replays, repeat := run.Pick(4, 10), run.Pick(300, 600), run.Pick(3, 4), run.Pick(64, 256)
-	for h := 0; h < nHist; h++ {
+	// besides the pairing worlds, histories of the jailing profile are replayed: epoch-start punishment of several
+	// complained-about providers under a per-chain budget is order-sensitive state the pairing lists depend on
+	nJail := run.Pick(2, 6)
+	for hh := 0; hh < nHist+nJail; hh++ {
+		h := hh
+		profOf := func() *Profile { return profPairingFor(h) }
+		ops := nOps
+		if hh >= nHist {
+			h = hh - nHist
+			profOf = func() *Profile { return profJail(h + 2) } // 5+ providers: several offenders per chain
+			ops = run.Pick(900, 1800)
+		}
 		var first *DigestMon
-		var firstStores []map[string]string
-		_ = firstStores
 		for rep := 0; rep < replays; rep++ {
 			var dm *DigestMon
 			var pm *PairingMon
-			s := History(t, run, profPairingFor(h), h, nOps, func(id string) []Monitor {
+			s := History(t, run, profOf(), h, ops, func(id string) []Monitor {
 				dm = &DigestMon{}
 				mons := []Monitor{dm}
-				if rep == 0 {
+				if rep == 0 && hh < nHist {
 					pm = &PairingMon{Run: run, Hist: id, Prop: "C01", Repeat: repeat}
 					mons = append(mons, pm)
 				}
@@ -94,8 +103,8 @@ func TestC01(t *testing.T) {
 			if rep == 0 {
 				first = dm
 				run.Count("blocks_digested", len(dm.Digests))
-				run.Nontrivial(fmt.Sprintf("hist%d", h))
-				if h == 0 {
+				run.Nontrivial(fmt.Sprintf("hist%d", hh))
+				if hh == 0 {
 					run.Sample(map[string]any{"history": 0, "blocks": len(dm.Digests), "first_digests": dm.Digests[:min(5, len(dm.Digests))], "tail": s.LogTail(5)})
 				}
 				continue
@@ -103,17 +112,17 @@ func TestC01(t *testing.T) {
 			run.Count("replays_compared", 1)
 			n := min(len(first.Digests), len(dm.Digests))
 			if len(first.Digests) != len(dm.Digests) || len(first.TxOK) != len(dm.TxOK) {
-				run.Violation("replay-diverged", "number of blocks / txs differs between two executions of the same history", fmt.Sprintf("history %d replay %d: blocks %d vs %d, txs %d vs %d", h, rep, len(first.Digests), len(dm.Digests), len(first.TxOK), len(dm.TxOK)), map[string]any{"history": h, "seed": run.Seed})
+				run.Violation("replay-diverged", "number of blocks / txs differs between two executions of the same history", fmt.Sprintf("history %d replay %d: blocks %d vs %d, txs %d vs %d", hh, rep, len(first.Digests), len(dm.Digests), len(first.TxOK), len(dm.TxOK)), map[string]any{"history": h, "seed": run.Seed})
 			}
 			for i := 0; i < n; i++ {
 				if first.Digests[i] != dm.Digests[i] {
-					run.Violation("replay-diverged", "state digest differs between two executions of the same history", fmt.Sprintf("history %d replay %d: first difference at block index %d (%s vs %s)", h, rep, i, first.Digests[i], dm.Digests[i]), map[string]any{"history": h, "seed": run.Seed, "block_index": i})
+					run.Violation("replay-diverged", "state digest differs between two executions of the same history", fmt.Sprintf("history %d (%s) replay %d: first difference at block index %d (%s vs %s)", hh, s.prof.Name, rep, i, first.Digests[i], dm.Digests[i]), map[string]any{"history": hh, "profile": s.prof.Name, "profile_history": h, "seed": run.Seed, "block_index": i})
 					break
 				}
 			}
 			for i := 0; i < min(len(first.TxOK), len(dm.TxOK)); i++ {
 				if first.TxOK[i] != dm.TxOK[i] {
-					run.Violation("replay-diverged", "tx result vector differs between two executions of the same history", fmt.Sprintf("history %d replay %d: tx index %d", h, rep, i), map[string]any{"history": h, "seed": run.Seed, "tx_index": i})
+					run.Violation("replay-diverged", "tx result vector differs between two executions of the same history", fmt.Sprintf("history %d replay %d: tx index %d", hh, rep, i), map[string]any{"history": hh, "seed": run.Seed, "tx_index": i})
 					break
 				}
 			}
@@ -122,6 +131,6 @@ func TestC01(t *testing.T) {
 	run.Require("repeated pairing queries", run.Counter("repeated_queries") > 1000)
 	run.Require("lists under mix mode (map-order sensitive filters)", run.Counter("lists_under_mix_mode") > 0)
 	run.Require("replays compared", run.Counter("replays_compared") > 0)
-	run.Finish("policy-heavy generated histories; (a) every GetPairing query at every epoch start is repeated R times in the same block and must return the identical ordered list (Go re-randomises map iteration on every range, so repetition samples map orders: a two-way order dependence that changes the result once in 8 evaluations escapes R=64 repetitions with probability (7/8)^64 ~ 2e-4); (b) each history is executed several times from scratch in the same process and the per-block digest of all stores + bank and the tx result vector must be identical; distinct non-trivial = histories replayed", nHist,
+	run.Finish("policy-heavy generated histories; (a) every GetPairing query at every epoch start is repeated R times in the same block and must return the identical ordered list (Go re-randomises map iteration on every range, so repetition samples map orders: a two-way order dependence that changes the result once in 8 evaluations escapes R=64 repetitions with probability (7/8)^64 ~ 2e-4); (b) each history, and a few histories of the jailing profile (several complained-about providers per chain under the per-chain jail budget), is executed several times from scratch in the same process and the per-block digest of all stores + bank and the tx result vector must be identical; distinct non-trivial = histories replayed", nHist+nJail,
 		"replays run in one process (same hash seed of the runtime, but map iteration order is still re-randomised per range); goroutine scheduling does not affect the keepers, which are single-threaded")
 }
